@@ -298,6 +298,41 @@ func (sc *SpecCtx) evalConjuncts(e SExpr, path string) []Conjunct {
 			}
 			return rs
 		}
+	case *SQuant:
+		// forall x :: (A && B)  ==  (forall x :: A) && (forall x :: B): one obligation per conjunct
+		if x.Forall && len(x.Pats) == 0 && sc.c.fc != nil && sc.c.fc.SplitForall {
+			c := sc.c
+			env := copyEnv(sc.env)
+			var binds, guards []string
+			for _, v := range x.Vars {
+				gt := c.e.parseGhostType(v.Type, sc.pkg, sc.pos)
+				so := c.e.ghostSort(gt)
+				name := fmt.Sprintf("%s$%d", sanitize(v.Name), nextBinder())
+				binds = append(binds, fmt.Sprintf("(%s %s)", name, so.SMT()))
+				env[v.Name] = Term{S: name, Sort: so, T: gt.goType()}
+				if so.Kind == KInt && gt.Kind == "go" {
+					if r := intRange(gt.Go, name); r != "true" {
+						guards = append(guards, r)
+					}
+				}
+			}
+			rs := sc.with(env).evalConjuncts(x.Body, path)
+			if len(rs) > 1 {
+				var vs []string
+				for _, v := range x.Vars {
+					vs = append(vs, v.Name+" "+v.Type)
+				}
+				for i := range rs {
+					b := rs[i].Term.S
+					if len(guards) > 0 {
+						b = sImp(sAnd(guards...), b)
+					}
+					rs[i].Term = Term{S: fmt.Sprintf("(forall (%s) %s)", strings.Join(binds, " "), b), Sort: sBool}
+					rs[i].Src = "forall " + strings.Join(vs, ", ") + " :: " + rs[i].Src
+				}
+				return rs
+			}
+		}
 	case *SLet:
 		v := sc.eval(x.Val)
 		env := copyEnv(sc.env)
@@ -678,6 +713,19 @@ func (sc *SpecCtx) evalCall(x *SCall) Term {
 		argn(1)
 		t := c.e.resolveGoType(specTypeString(x.Args[0]), sc.pkg, sc.pos)
 		return Term{S: fmt.Sprint(d.typeTag(t)), Sort: sInt}
+	case "deref":
+		// deref(p): the value a pointer to a non-struct (or opaque) type points at
+		argn(1)
+		v := sc.eval(x.Args[0])
+		if v.T == nil {
+			sc.fail("deref of a term without Go type")
+		}
+		pt, ok := v.T.Underlying().(*types.Pointer)
+		if !ok {
+			sc.fail("deref of non-pointer %v", v.T)
+		}
+		arr := c.heapGet(sc.st, "P:"+typeShortName(pt.Elem()), arraySort(sV, d.sortOf(pt.Elem())))
+		return Term{S: sSel(arr.S, v.S), Sort: arr.Sort.Elem, T: pt.Elem()}
 	case "zero":
 		argn(1)
 		gt := c.e.parseGhostType(specTypeString(x.Args[0]), sc.pkg, sc.pos)
@@ -772,7 +820,10 @@ func (c *FnCtx) cardOf(setSort *Sort, s string) string {
 		d.addAxiom(fn+".add", fmt.Sprintf("(forall ((s %s) (k %s)) (! (= (%s (store s k true)) (+ (%s s) (ite (select s k) 0 1))) :pattern ((%s (store s k true)))))", ss, k, fn, fn, fn))
 		d.addAxiom(fn+".del", fmt.Sprintf("(forall ((s %s) (k %s)) (! (= (%s (store s k false)) (- (%s s) (ite (select s k) 1 0))) :pattern ((%s (store s k false)))))", ss, k, fn, fn, fn))
 		d.addAxiom(fn+".mem", fmt.Sprintf("(forall ((s %s) (k %s)) (! (=> (select s k) (> (%s s) 0)) :pattern ((select s k) (%s s))))", ss, k, fn, fn))
-		d.addAxiom(fn+".pos", fmt.Sprintf("(forall ((s %s)) (! (=> (> (%s s) 0) (exists ((k %s)) (select s k))) :pattern ((%s s))))", ss, fn, k, fn))
+		// positive => some member, with a witness function instead of a nested existential (much
+		// friendlier to e-matching: no skolemisation inside instances)
+		d.declFun(fn+".wit", ss, k)
+		d.addAxiom(fn+".pos", fmt.Sprintf("(forall ((s %s)) (! (=> (> (%s s) 0) (select s (%s.wit s))) :pattern ((%s s))))", ss, fn, fn, fn))
 		c.e.trusted["axioms of set cardinality ("+fn+"): nonneg, empty, add, del, member=>positive, positive=>member"] = true
 	}
 	return sApp(fn, s)
